@@ -56,6 +56,7 @@ type PathState struct {
 	Resolved   map[string]*Term        // call term key -> the value the (pure, branching) callee returns on this path
 	visits     map[*ssa.BasicBlock]int // how often each block has been entered so far (unrolled loops)
 	havoc      map[int]bool            // positions in Blocks where a data-loop header is re-entered with unknown loop-carried values
+	loopEntry  *loopEntry              // LoopPaths: the first call interpreted uses these templates (the helper's paths from its loop header)
 }
 
 // PhiIn returns, for a path that ended by entering StopBlock, the term flowing into phi (a phi of StopBlock).
@@ -1673,6 +1674,9 @@ func (s *PathState) exec(bi, ii int, target ssa.Instruction, emit func(*PathStat
 			if g != nil {
 				call := in.(*ssa.Call)
 				ts, complete := templatesCB(g, nil, cbOf(call))
+				if le := s.loopEntry; le != nil && le.call == call {
+					ts, complete, s.loopEntry = le.ts, le.complete, nil // looproot.go: enter the helper at its loop header
+				}
 				if !complete {
 					drop(true)
 					return
